@@ -464,7 +464,23 @@ var opxWitnesses = []string{
 	"( x1", "x1 )", "x1 +", "+ ", "x1 x2", "x1 IS x2", "x1 IS NOT", "( )", "x1 ! x2", "NOT", "x1 AND", "* x1", "x1 = = x2",
 }
 
+// quotedCallName: a back-quoted identifier directly in front of "(" is a function called by a QUOTED name; Function.String()
+// drops the quoting (known finding F30, reported by its own law print_parse_fixpoint:function_name_unquoted): outside the
+// comparison of printed words.
+func quotedCallName(ws []string) bool {
+	for i := 0; i+1 < len(ws); i++ {
+		if strings.HasPrefix(ws[i], "`") && ws[i+1] == "(" {
+			return true
+		}
+	}
+	return false
+}
+
 func opxCase(o *hc.Out, ws []string) {
+	if quotedCallName(ws) {
+		o.Count("opx.outside_fragment:quoted_function_name")
+		return
+	}
 	if len(ws) == 0 || !opxInFragment(ws) {
 		o.Count("opx.outside_fragment")
 		return
